@@ -47,13 +47,14 @@ def virtual_time(clock):
 
 
 class Env:
-    def __init__(self, nservers=1, pieces=None, eintr=None, addrs=None, now=1_700_000_000):
+    def __init__(self, nservers=1, pieces=None, eintr=None, addrs=None, now=1_700_000_000, cas_start=0):
         self.clock = Clock(now)
         self.net = FakeNet(pieces, eintr)
         self.addrs = list(addrs) if addrs else [("mc%d" % (i + 1), 11211) for i in range(nservers)]
         self.servers = []
         for a in self.addrs:
             srv = McServer(self.clock, name=str(a))
+            srv.cas_counter = cas_start
             self.net.add_server(a, srv)
             self.servers.append(srv)
         self.ncalls = 0
